@@ -59,6 +59,16 @@ def build_cases(tier, seed):
                 if model == "name_Cumulative":
                     ex = {"num_votes": 2}
                 cs.append((model, ("one", k), N, ex))
+    for k, p in enumerate(gens.three_bloc_params(tier)):
+        for model in ("name_PlackettLuce", "name_BradleyTerry", "name_BradleyTerry_MCMC", "name_Cumulative", "slate_PlackettLuce",
+                      "short_name_PlackettLuce"):
+            for N in (1, 2, 3, 4) if len(gens.all_cands(p)) == 3 else (1, 2, 3):
+                ex = {}
+                if model == "short_name_PlackettLuce":
+                    ex = {"ballot_length": 2}
+                if model == "name_Cumulative":
+                    ex = {"num_votes": 2}
+                cs.append((model, ("three", k), N, ex))
     for n in (2, 3):
         for N in (1, 2, 3):
             for model in ("ImpartialCulture", "ImpartialAnonymousCulture", "from_point"):
@@ -79,7 +89,7 @@ def build_cases(tier, seed):
         "family": "generators: name_/short_name_PlackettLuce, name_BradleyTerry (exact, MCMC), name_Cumulative, slate_PlackettLuce, slate_BradleyTerry "
                   "(exact, MCMC), AlternatingCrossover, CambridgeSampler (custom 4-type historical table) on two blocs with slate sizes "
                   "(1,1),(2,1),(2,2)" + ("" if tier == "quick" else ",(1,2)") + ", supports {(.2,.8),(1,0),(.5,.5)}, cohesion {1,.7,.5,.3" + (",0" if tier != "quick" else "") + "}, proportions "
-                  "{(.5,.5),(.7,.3),(1,0)} and on one bloc of 2..3 candidates; ImpartialCulture, ImpartialAnonymousCulture, BallotSimplex.from_point on "
+                  "{(.5,.5),(.7,.3),(1,0)} on one bloc of 2..3 candidates and on three blocs (name models, slate_PlackettLuce; N <= 4); ImpartialCulture, ImpartialAnonymousCulture, BallotSimplex.from_point on "
                   f"2..3 candidates; OneDimSpatial / Spatial / ClusteredSpatial on finite position grids; N in {Ns}; all RNG paths, by_bloc=True",
         "assumptions": ["small scope: <= 4 candidates, N <= 3 ballots; a case with more than 6000 paths is explored with deviation bound 2 and flagged",
                         "continuous draws of the spatial models range over a finite grid; Dirichlet draws over a two-point menu"],
@@ -99,6 +109,8 @@ def params_of(ref, tier="quick"):
         return gens.two_bloc_params(_TIER[0])[k]
     if kind == "one":
         return gens.one_bloc_params(_TIER[0])[k]
+    if kind == "three":
+        return gens.three_bloc_params(_TIER[0])[k]
     return None
 
 
